@@ -450,6 +450,7 @@ fn prop_jobs<K: Kmer + 'static>(name: &'static str, _env: &Env) -> Vec<Box<dyn J
     .boxed()]
 }
 
+#[cfg(not(fuzzing))]
 pub fn jobs(env: &Env) -> Vec<Box<dyn Job>> {
     let mut out: Vec<Box<dyn Job>> = Vec::new();
     // big jobs first so that the pool is balanced
